@@ -244,6 +244,17 @@ def judge(ctx, idx, case):
         ctx.sample({"A": case["A"], "derive": case["derive"], "lookup_steps": case["lookup_steps"]}, limit=2)
 
 
+def extra_stage(tier, seed, workdir):
+    """Thorough tier: the repository's own 939 tests run with the monitor attached (pytest plugin pv.pytest_plugin)."""
+    if tier != "thorough":
+        return {}, []
+    counters, reports, tail = common.suite_under_monitors("IDX", workdir)
+    counters["suite.ran"] = 1
+    viol = [{"idx": -2, "what": "IDX monitor while the repository's test-suite ran (%s): %s" % ((w[1] or {}).get("context"), w[0]),
+             "payload": {"workload": "repository test-suite under monitors", "pytest": tail}, "witness": w[1]} for w in reports[:5]]
+    return counters, viol
+
+
 def run_case(ctx, idx):
     judge(ctx, idx, make_case(ctx, idx))
 
@@ -268,6 +279,8 @@ def floors(counters, tier, extra):
               "deserialize.json"):
         if counters.get("mon.IDX.at." + w, 0) < need // 4:
             out.append("IDX hook at %s fired only %d times" % (w, counters.get("mon.IDX.at." + w, 0)))
+    if tier == "thorough" and counters.get("suite.IDX.evaluations", 0) < 1000:
+        out.append("the monitor observed the repository's test-suite only %d times" % counters.get("suite.IDX.evaluations", 0))
     out.extend(common.cov_floor(extra))
     return out
 
